@@ -725,6 +725,8 @@ def _check_pi2lev_split(repo, r3, s):
     def bounds(test):
         """(lower term or None, lower strict?, upper term or None, upper inclusive?) for tests on n = len(database[keyword])"""
         t = test
+        if not isinstance(t, ast.Compare):
+            return None
         ops = [type(o) for o in t.ops]
         operands = [t.left] + list(t.comparators)
         idx = next((i for i, o in enumerate(operands) if "len(database[keyword])" == unparse(o)), None)
